@@ -16,8 +16,8 @@ PROP = "C13"
 RULE = (
     "annotations of 1-8 lines in which every line exhibits the file dialect (so each window of each checklines value "
     "recovers it), incl. '.' coordinates and zero-length (end = start-1) rows; supplied as path, gzip path, string, list of "
-    "Features, one-shot generator (and other one-shot iterators: list iterator, map object, a class with __next__), "
-    "DataIterator and FeatureDB; checklines 0..n+2; transform none / tagging / dropping rows "
+    "Features (also as a deque or a dict's values), one-shot generator (and other one-shot iterators: list iterator, map object, a class with __next__), "
+    "DataIterator and FeatureDB; verbose on/off; checklines 0..n+2; transform none / tagging / dropping rows "
     "by index with a generated false value; inspect() with generated look_for subsets and limits. Non-trivial = more lines "
     "than checklines+1, or a transform that drops a row. Distinct by hash."
 )
